@@ -245,6 +245,8 @@ def srcOKB (types : Types) : Nat → Nat → Bool
         si.exports.all fun x => match x.2 with
           | .func _ => true
           | .value _ => true
+          | .type (.func _) => true
+          | .type (.value _) => true
           | .instance t => srcOKB types d t
           | _ => false
     | none => false
@@ -266,7 +268,12 @@ theorem srcOK_of_srcOKB (types : Types) : ∀ d i, srcOKB types d i = true → S
       | «instance» t =>
         rw [hk] at this
         exact .inr ⟨t, rfl, srcOK_of_srcOKB types d t this⟩
-      | type _ => rw [hk] at this; cases this
+      | type ty =>
+        rw [hk] at this
+        cases ty with
+        | func _ => exact .inl (by simp [LeafK])
+        | value _ => exact .inl (by simp [LeafK])
+        | _ => cases this
       | component _ => rw [hk] at this; cases this
       | module _ => rw [hk] at this; cases this
 
